@@ -426,7 +426,8 @@ func c14Texts() []c14msg {
 	flags := []string{"master", "myself,master", "slave", "myself,slave", "master,fail", "slave,fail", "master,handshake", "slave,handshake", "master,noaddr", "noflags",
 		"slave,nofailover", "myself,slave,nofailover", "master,nofailover", "slave,fail?", "master,fail?,nofailover"}
 	links := []string{"connected", "disconnected"}
-	slotShapes := [][]string{{"10923-16383"}, {"10923-12000", "12002-16383", "12001"}, {"10923-16383", "[11000->-bbb]"}, {}, {"10923-16383", "[93-<-aaa]", "[94-<-aaa]"}}
+	slotShapes := [][]string{{"10923-16383"}, {"10923-12000", "12002-16383", "12001"}, {"10923-16383", "[11000->-bbb]"}, {}, {"10923-16383", "[93-<-aaa]", "[94-<-aaa]"},
+		{"[93-<-aaa]"}} // the last: a new master importing its first slot (no plain slot column, only the marker): a usable node
 	for _, fl := range flags {
 		for _, lk := range links {
 			for si, sl := range slotShapes {
